@@ -13,6 +13,10 @@ TRUSTED_BASE = [
     "independent oracle: plain numpy on dense matrices (orthonormality, first column, T = Q^H A Q, residual confined to the last column, Krylov span, early exit)",
 ]
 MAXDIFF = 0.0
+# kernel primitives of Coq's binary64 floats (not logical axioms); Print Assumptions lists them for the three
+# *_refuted witnesses, which are evaluated on PrimFloat by vm_compute
+EXTRA_AXIOMS = ["PrimFloat.float", "PrimFloat.add", "PrimFloat.sub", "PrimFloat.mul", "PrimFloat.div", "PrimFloat.opp", "PrimFloat.abs",
+                "PrimFloat.sqrt", "PrimFloat.ltb", "PrimFloat.leb", "PrimFloat.eqb"]
 ASSUMPTIONS = [
     "float64 / complex128 operators only (the model computes in binary64)",
     "theorems are about exact arithmetic over an abstract field with involution and inner-product space (weak equality: tested against every vector); "
@@ -79,11 +83,11 @@ def findings():
     return out
 
 
-def eval_cases(name, terms, shard=150, timeout=900):
+def eval_cases(name, terms, shard=150, timeout=900, fn="codes"):
     jobs = []
     for s in range(0, len(terms), shard):
         body = L.HEADER + "Definition cases : list lcase := [\n" + ";\n".join(terms[s:s + shard]) + "].\n"
-        body += "Eval vm_compute in (length cases, codes 0 cases).\nEval vm_compute in (maxdiff_agreeing cases).\n"
+        body += f"Eval vm_compute in (length cases, {fn} 0 cases).\nEval vm_compute in (maxdiff_agreeing cases).\n"
         jobs.append((f"{name}_{s // shard}", body))
     outs = core.coqc_many(jobs, timeout)
     codes = {}
@@ -141,6 +145,19 @@ def run(ctx):
 
     obs = [L.run_impl(c) for c in cases]
     mism = []
+    # the aliasing rule of the model (l_alias = true) against the implementation on the flag's own witness
+    alias_wit = 0
+    if "lanczos_alias_identity" in present:
+        wc = dict(kind="identity", cplx=False, style="identity", parts=[], n=3, start="witness", batch=0, grades=[1],
+                  v=L.enc(np.array([[1., 1., 1.]])), max_iters=3, tol=1e-7, entry="lanczos")
+        wo = L.run_impl(wc)
+        if wo.get("ok") and wo.get("alias"):
+            wcodes, werr = eval_cases("c14_wit", [L.coq_case(wc, wo, True)], fn="codes_plain")
+            alias_wit = 1
+            if werr or wcodes:
+                mism.append(dict(oracle_fail=False, case=wc, got={k: wo.get(k) for k in ("k", "off", "diag", "Q")},
+                                 model_disagrees="the model's aliasing rule no longer reproduces the implementation on the flag's witness",
+                                 harness_error=werr, model_code=(wcodes or {}).get(0)))
     idx = [i for i, o in enumerate(obs) if o.get("ok")]
     terms = [L.coq_case(cases[i], obs[i], "lanczos_alias_identity" in present) for i in idx]
     codes, err = eval_cases("c14", terms)
@@ -184,7 +201,7 @@ def run(ctx):
         samples=[dict(kind=c["kind"], n=c["n"], cplx=c["cplx"], start=c["start"], batch=c["batch"], max_iters=c["max_iters"], tol=c["tol"], entry=c["entry"],
                       v=c["v"], parts=c["parts"]) for c in cases[:2]],
         mismatches=mism, findings=fnd,
-        extra=dict(compared_in_coq=len(idx), max_model_impl_difference=MAXDIFF, tolerance=1e-9, near_tie=hist.get(1, 0), noise_amplified_skipped=hist.get(2, 0), agree=hist.get(0, 0),
+        extra=dict(compared_in_coq=len(idx) + alias_wit, alias_witness_compared=alias_wit, max_model_impl_difference=MAXDIFF, tolerance=1e-9, near_tie=hist.get(1, 0), noise_amplified_skipped=hist.get(2, 0), agree=hist.get(0, 0),
                    kind_histogram=kh, start_histogram=sh, max_iters_vs_n=mh, exit_histogram=eh,
                    complex_cases=sum(1 for c in cases if c["cplx"]), batched_cases=sum(1 for c in cases if c["batch"]),
                    avoided_regions=avoided, defect_free_region_cases=len(gone_region), large_oracle_only=len(big),
